@@ -197,6 +197,8 @@ def realize(x, t):
             return {f: realize(v, t.fields[f]) for f, v in x.items() if v is not None}
         if t.cls == "Interaction":
             return pytypes.SimpleNamespace(**{f: realize(v, t.fields[f]) for f, v in x.items()})
+        if ":" not in t.cls:
+            return {f: realize(v, t.fields[f]) for f, v in x.items()}
         raise NotImplementedError(f"record {t.cls}")
     return x
 
@@ -440,7 +442,9 @@ def main(argv):
     for b in bad[:10]:
         print("  DISAGREEMENT", b)
     main.last = {"agree": agree, "total": total, "bad": [repr(b)[:600] for b in bad[:5]], "skipped": dict(skipped)}
-    return 3 if bad else 0
+    clauses, cbad, cskipped = conformance(max(5, n // 2), seed)
+    main.last.update({"clauses": clauses, "false_clauses": [repr(b)[:600] for b in cbad[:5]], "conf_skipped": dict(cskipped)})
+    return 3 if bad or cbad else 0
 
 
 def unit(ctx, res):
@@ -456,8 +460,155 @@ def unit(ctx, res):
     res.bound = "CPython vs pyvc interpreter on random concrete inputs satisfying the contracts' preconditions (functions with plain-data parameters)"
     res.rule = "same returned value (exact for integers, strings, booleans; 1e-9 for reals) or same exception class"
     res.assumptions.append("engine cross-check skipped for: " + "; ".join(f"{k} ({v[:60]})" for k, v in info.get("skipped", {}).items()))
-    if rc != 0:
+    res.evaluations += info.get("clauses", 0)
+    res.nontrivial += info.get("clauses", 0) - len(info.get("false_clauses", []))
+    res.rule += "; every postcondition of a contract (proved or ASSUMED, e.g. the model of networkx.single_source_shortest_path) is true of the real function's outcome"
+    res.assumptions.append("specification conformance skipped for: " + "; ".join(f"{k} ({v[:60]})" for k, v in info.get("conf_skipped", {}).items()))
+    if info.get("bad"):
         res.errors.append("pyvc's interpreter disagrees with CPython: " + " | ".join(info.get("bad", [])))
+    if info.get("false_clauses"):
+        res.errors.append("a contract clause is false on an outcome of the real function (wrong specification or library model): " + " | ".join(info["false_clauses"]))
+
+
+
+
+# ------------------------------------------------------------------------------------------------------------------------------
+# conformance of specifications and library models: the postconditions of contracts (proved ones and ASSUMED ones of library
+# functions) are evaluated on the outcome of the REAL function for random concrete inputs.  A clause that is false on a real
+# outcome means the specification (or the model of the library behind it) is wrong -- a checker defect.
+
+def unrealize(v, t):
+    """real result -> generated-data form (for flat_py)"""
+    import networkx as nx
+    n = type(t).__name__
+    if v is None:
+        return None
+    if n == "TList":
+        return [unrealize(e, t.t) for e in v]
+    if n == "TTuple":
+        return tuple(unrealize(e, s) for e, s in zip(v, t.ts))
+    if n in ("TDict", "TDefaultDict"):
+        return {k: unrealize(x, t.v) for k, x in v.items()}
+    if n == "TRec" and "nodes" in t.fields and "adj" in t.fields and isinstance(v, nx.Graph):
+        out = {"nodes": {k: {f: (d.get(f) if f in d else None) for f in t.fields["nodes"].v.fields} for k, d in v.nodes(data=True)},
+               "adj": {(a, b) for a, b in v.edges} | {(b, a) for a, b in v.edges}}
+        for f, ft in t.fields.items():
+            if f not in ("nodes", "adj"):
+                out[f] = getattr(v, f, None)
+        return out
+    return v
+
+
+def uf_interpretations(universe):
+    """meanings of the uninterpreted symbols used by graph contracts, computed from the concrete adjacency functions"""
+    def degree(adj, x):
+        return sum(1 for y in universe if adj((x, y))) + (1 if adj((x, x)) else 0)
+
+    def bfs(adj, a):
+        dist, frontier = {a: 0}, [a]
+        while frontier:
+            nxt = []
+            for u in frontier:
+                for w in universe:
+                    if w not in dist and adj((u, w)):
+                        dist[w] = dist[u] + 1
+                        nxt.append(w)
+            frontier = nxt
+        return dist
+    return {"nx_degree": degree,
+            "bond_graph_distance": lambda adj, a, b: bfs(adj, a).get(b, 10 ** 6),
+            "bond_graph_connected": lambda adj, a, b: b in bfs(adj, a)}
+
+
+def conformance(n=40, seed=1):
+    import networkx as nx
+    from pyvc.concretise import flat_py, real_function, CannotConcretise
+    from pyvc.engine import Engine
+    from pyvc import numeval
+    universe = list(range(6))
+    cases = []
+    import glob
+    import os
+    here = os.path.dirname(os.path.dirname(os.path.abspath(__file__)))
+    for modname in sorted("contracts." + os.path.basename(f)[:-3] for f in glob.glob(os.path.join(here, "contracts", "*.py")) if not f.endswith("__init__.py")):
+        try:
+            m = importlib.import_module(modname)
+        except Exception:
+            continue
+        for reg in [getattr(m, x) for x in dir(m) if x.startswith("REG")]:
+            for c in reg.values():
+                if "self" in c.params or c.modifies or c.raises or c.exposes or not c.ensures:
+                    continue
+                if any("_" + g.lstrip("_") in str(e) for g in c.ghost_locals for _n, e in c.ensures):
+                    continue            # the postcondition mentions ghost state
+                cases.append((c, reg))
+    seen, clauses, bad, skipped = set(), 0, [], {}
+    for c, reg in cases:
+        if (c.target, c.instance) in seen:
+            continue
+        seen.add((c.target, c.instance))
+        rnd = random.Random(f"conf/{seed}/{c.target}")
+        try:
+            if ":" in c.target and c.module.startswith("polyply"):
+                fn = real_function(c.target)
+            else:
+                fn = getattr(importlib.import_module(c.module), c.qual)
+        except Exception as e:                          # noqa: BLE001
+            skipped[c.target] = f"no real function: {e}"
+            continue
+        ran = 0
+        for _ in range(20 * n):
+            if ran >= n:
+                break
+            try:
+                args = {p: gen(t, rnd) for p, t in c.params.items()}
+                if not requires_hold(c, reg, args):
+                    continue
+                real_args = c.adapt(copy.deepcopy(args)) if c.adapt else {p: realize(copy.deepcopy(v), c.params[p]) for p, v in args.items()}
+            except Exception as e:                      # noqa: BLE001
+                skipped[c.target] = f"inputs: {type(e).__name__}: {e}"
+                break
+            try:
+                res = fn(**real_args)
+                res = list(res) if hasattr(res, "__next__") else res
+            except Exception as e:                      # noqa: BLE001
+                if type(e).__name__ in ("NetworkXError", "NodeNotFound", "KeyError") and not c.module.startswith("polyply"):
+                    continue            # library precondition (e.g. source not in graph) not expressed in the assumed contract: input skipped
+                skipped[c.target] = f"real function raised {type(e).__name__}: {e}"
+                break
+            try:
+                sym_env, assign = {}, {"__universe__": {"Node": universe}}
+                assign.update(uf_interpretations(universe))
+                for p, t in c.params.items():
+                    v = t.fresh(p)
+                    sym_env[p] = v
+                    for term, val in zip(t.flat(v), flat_py(t, args[p])):
+                        assign[term.decl().name()] = val
+                rv = c.result.fresh("result")
+                sym_env["result"] = rv
+                for term, val in zip(c.result.flat(rv), flat_py(c.result, unrealize(res, c.result))):
+                    assign[term.decl().name()] = val
+                e2 = Engine(reg)
+                e2.contract = c
+                for name, ens in c.ensures:
+                    val = e2.spec_eval(ens, sym_env, old_env=sym_env)
+                    ok = val if isinstance(val, bool) else bool(numeval.evaluate(val, assign, window=range(-1, 8)))
+                    clauses += 1
+                    if not ok:
+                        bad.append((c.target, name, {k: repr(v)[:150] for k, v in args.items()}, repr(res)[:150]))
+                ran += 1
+            except (numeval.CannotEvaluate, CannotConcretise, NotImplementedError, KeyError, TypeError, AttributeError) as e:
+                skipped[c.target] = f"clauses not evaluable on concrete data: {type(e).__name__}: {e}"
+                break
+        if ran:
+            print(f"  conformance {c.target:60s} {ran:3d} outcomes satisfy the {'ASSUMED' if c.trusted else 'proved'} contract"
+                  if not [b for b in bad if b[0] == c.target] else f"  conformance {c.target} VIOLATED")
+    for k, v in skipped.items():
+        print(f"  conformance skipped {k}: {v[:160]}")
+    print(f"conformance: {clauses} clause evaluations on real outcomes, {len(bad)} false")
+    for b in bad[:8]:
+        print("  FALSE CLAUSE", b)
+    return clauses, bad, skipped
 
 
 if __name__ == "__main__":
